@@ -165,16 +165,15 @@ decreasing_by
 def textwrap (width : Nat) (para : Str) : List Str :=
   wrapChunks width (splitChunks (munge (expandtabs para 0))) false
 
+/-- `xs or [""]` -/
+def orEmptyLine : List Str → List Str
+  | [] => [[]]
+  | ls => ls
+
 /-- the list comprehension of `diagnostic.wrap` (after the fixes: empty text and blank
     paragraphs yield one empty line) -/
 def wrapLines (text : Str) (width : Nat) : List Str :=
-  let paras := match splitlines text with
-    | [] => [[]]
-    | ps => ps
-  paras.flatMap fun p =>
-    match textwrap width p with
-    | [] => [[]]
-    | ls => ls
+  (orEmptyLine (splitlines text)).flatMap fun p => orEmptyLine (textwrap width p)
 
 inductive Err where
   | assertion   -- AssertionError (Loc.shift_left)
@@ -374,9 +373,7 @@ def renderChildMessages : List SubDiag → Except Err (List Str)
 def renderDiagnostic (file : Str) (src : List Str) (d : Diag) : Except Err (List Str) := do
   let head ← match d.span with
     | none =>
-      let msg := match truthy d.message with
-        | some m => m
-        | none => d.title
+      let msg := (truthy d.message).getD d.title
       wrap (levelStr d.level ++ [':', ' '] ++ msg) MAX_MESSAGE_LINE_LEN [] []
     | some span => do
       let childSpans := d.children.filterMap (·.span)
